@@ -29,7 +29,8 @@ Definition dk (n : Z) : dkind :=
 
 (* ops: [0; v] setenv (v: 0 -> "0", 1 -> "1", 2 -> "2", 3 -> "", 4 -> "true"), [1] unsetenv, [2] enable, [3] disable,
    [4; d; ...] decorate (further entries describe the target for the implementation worker; the model, like the
-   statement, does not depend on them), [5; i] call *)
+   statement, does not depend on them), [5; i] call, [6; d; ...] create a decorator object, [7; k; ...] apply the k-th
+   created decorator object to a fresh target *)
 Definition dec_op (l : list Z) : op :=
   match l with
   | [0; v] => OSetenv (match v with 0 => "0" | 1 => "1" | 2 => "2" | 3 => "" | _ => "true" end)%string
@@ -38,6 +39,8 @@ Definition dec_op (l : list Z) : op :=
   | [3] => ODisable
   | 4 :: d :: _ => ODecorate (dk d) 0
   | [5; i] => OCall (Z.to_nat i)
+  | 6 :: d :: _ => OCreate (dk d)
+  | 7 :: k :: _ => OApply (Z.to_nat k) 0
   | _ => OUnsetenv
   end.
 
@@ -47,5 +50,5 @@ Definition init_env (v : Z) : envv :=
 (* model observations ++ [-1] ++ spec observations *)
 Definition eval_case (init : Z) (h : list (list Z)) : list Z :=
   let ops := map dec_op h in
-  map enc_obs (snd (run_ops the_model {| env := init_env init; objs := [] |} ops))
-  ++ [-1] ++ map enc_obs (snd (spec_run {| s_env := init_env init; s_objs := [] |} ops)).
+  map enc_obs (snd (run_ops the_model {| env := init_env init; objs := []; decos := [] |} ops))
+  ++ [-1] ++ map enc_obs (snd (spec_run {| s_env := init_env init; s_objs := []; s_decos := 0%nat |} ops)).
